@@ -23,6 +23,11 @@ func main() {
 	}
 	d.F1(nodes)
 	d.ReflectSeqs(nodes)
+	strMax := 300
+	if run.Thorough() {
+		strMax = 1100
+	}
+	d.StringLengths(strMax)
 	d.F2(strLen)
 	d.F3(levels, true)
 	all := make([]zapcore.Level, 0, 256)
